@@ -310,6 +310,21 @@ def check_transform_and_live_handle(ctx):
                                    hash_algorithms=list(hashes),
                                    error=repr(e)[:200])
                         break
+                    # ... and the handle's other splits are their own
+                    try:
+                        C.fill(h, range(100, 103), "test")
+                        C.fill(h, range(200, 202), "holdout")
+                        others = {sp: sorted(C.iterate(h, iface, sp))
+                                  for sp in ("test", "holdout", "train")}
+                    except Exception as e:  # noqa: BLE001
+                        others = repr(e)[:200]
+                    if others != {"test": [100, 101, 102],
+                                  "holdout": [200, 201],
+                                  "train": list(range(11))}:
+                        bad = dict(what="one handle asked for one split "
+                                   "after another", interface=iface,
+                                   hash_algorithms=list(hashes), got=others)
+                        break
                     if sorted(first) != list(range(5)) or \
                             sorted(second) != list(range(11)):
                         bad = dict(what="iterate / write / iterate on one "
@@ -446,9 +461,11 @@ def _md_dataset(root, fmt="fb"):
     """non-contiguous metadata runs A B A C A, eps 2"""
     d = C.mk_dataset(root, fmt, "", eps=2)
     ids = list(range(0, 13))
-    mds = ([{"k": "A", "n": {"x": [1, 2]}}] * 3 + [{"k": "B"}] * 3 +
-           [{"k": "A", "n": {"x": [1, 2]}}] * 3 + [{"k": "C"}] * 2 +
-           [{"k": "A", "n": {"x": [1, 2]}}] * 2)
+    # the value A is an equal dict every time, its nested dict built with the
+    # keys in another order from run to run
+    mds = ([{"k": "A", "n": {"x": [1, 2], "y": 0}}] * 3 + [{"k": "B"}] * 3 +
+           [{"n": {"y": 0, "x": [1, 2]}, "k": "A"}] * 3 + [{"k": "C"}] * 2 +
+           [{"k": "A", "n": {"y": 0, "x": [1, 2]}}] * 2)
     from sedpack.io.dataset_filler import DatasetFiller
     with d.filler() as f:
         for i, md in zip(ids, mds):
@@ -706,6 +723,37 @@ def check_repeat(ctx):
                     break
             if bad:
                 break
+        # a tiny split repeated for 1500 epochs (nothing may grow per epoch),
+        # and a handle without recorded checksums asked for its splits in turn
+        if bad is None:
+            root3 = tmp / "tiny"
+            d3 = C.mk_dataset(root3, "fb", "", eps=4, hashes=())
+            C.fill(d3, range(0, 3), "train")
+            C.fill(d3, range(10, 14), "test")
+            for iface in ("numpy", "concurrent", "rust"):
+                n_eval += 1
+                try:
+                    got = C.iterate(d3, iface, "train", limit=4500,
+                                    repeat=True, shuffle=0,
+                                    file_parallelism=2, timeout=90)
+                    got_test = C.iterate(d3, iface, "test", limit=9,
+                                         repeat=True, shuffle=0,
+                                         file_parallelism=2)
+                except BaseException as e:  # noqa: BLE001
+                    bad = dict(interface=iface, what="repeating a 3-example "
+                               "split for 1500 epochs failed",
+                               error=repr(e)[:200])
+                    break
+                if got != [0, 1, 2] * 1500 or got_test != ([10, 11, 12, 13]
+                                                           * 3)[:9]:
+                    bad = dict(interface=iface, what="3-example split over "
+                               "1500 epochs, then the other split through "
+                               "the same handle (no recorded checksums)",
+                               train_delivered=len(got),
+                               first_wrong=next((k for k, (a, b) in enumerate(
+                                   zip(got, [0, 1, 2] * 1500)) if a != b),
+                                   None), test_prefix=got_test)
+                    break
         # a transformation (or consumer) that works in place on what it is
         # handed: later epochs still deliver the one-pass sequence
         if bad is None:
@@ -884,6 +932,33 @@ def check_damage(ctx):
                                              interface=iface, shuffle=shuffle,
                                              outcome=what),
                                 finding_key=key))
+        # more threads than shards and a rejection that takes a while (48 MiB
+        # of garbage): idle workers have stopped before the failure arrives
+        for fp in (8,):
+            root = tmp / "slowrej"
+            d = C.mk_dataset(root, "fb", "", eps=4)
+            C.fill(d, range(0, 8), "train")          # 2 shards
+            shards = C.tree_shards(root, "train")
+            (root / shards[1][0]["file_infos"][0]["file_path"]).write_bytes(
+                random.Random(5).randbytes(48 * 1024 * 1024))
+            d = Dataset(root)
+            for shuffle in (5, 0):
+                n_eval += 1
+                try:
+                    got = C.iterate(d, "concurrent", "train", shuffle=shuffle,
+                                    file_parallelism=fp, timeout=40)
+                    what = f"pass ended normally with {len(got)} of 8 examples"
+                except TimeoutError as e:
+                    what = "hang: " + str(e)
+                except BaseException:  # noqa: BLE001
+                    continue
+                fails.append(C.result(
+                    "damaged shard must raise", False,
+                    function="imap_unordered",
+                    witness=dict(fmt="fb", compression="",
+                                 damage="48 MiB of garbage", position=1,
+                                 interface="concurrent", shuffle=shuffle,
+                                 file_parallelism=fp, shards=2, outcome=what)))
         # a repeating (endless) stream over a damaged shard: the error has to
         # reach the consumer when the shard is first needed, not after some
         # number of silent passes
@@ -1128,6 +1203,26 @@ def check_lazy(ctx):
                                        inputs_pulled=len(pulled),
                                        bound=taken + 2 * T + 2)
                         if taken >= 4 or bad:
+                            break
+                _wait_for_workers()
+            # ... and with a fast function but a slow consumer (30 ms per
+            # result): results waiting to be taken count as read-ahead too
+            if bad is None:
+                n_eval += 1
+                T = 3
+                del pulled[:]
+                taken = 0
+                with LazyPool(T) as pool:
+                    for _ in pool.imap_unordered(lambda x: x, source()):
+                        taken += 1
+                        _t.sleep(0.03)
+                        if len(pulled) > taken + 2 * T + 2:
+                            bad = dict(interface="LazyPool", threads=T,
+                                       consumer_seconds_per_result=0.03,
+                                       results_taken=taken,
+                                       inputs_pulled=len(pulled),
+                                       bound=taken + 2 * T + 2)
+                        if taken >= 30 or bad:
                             break
                 _wait_for_workers()
         if bad is None:
